@@ -217,3 +217,21 @@ PROPS["C13"] = {
         {"name": "TestProp_C13_Faults", "kind": "plain", "crumb_is_violation": True, "quick": {"shards": 4, "timeout": 500}, "thorough": {"shards": 8, "timeout": 3000}},
     ],
 }
+
+PROPS["C14"] = {
+    "level": "exploration",
+    "technique": "property-based testing (rapid) + exhaustive fragment-size sweep: round trip through an independent reassembler and decoder on the sending side; model-based testing of arrival sequences against the specification's reassembly rules on the receiving side",
+    "level_text": "sending: every piece <= size, pieces reassemble (independent implementation) to the data message carrying the text, the peer returns the text exactly once on the last piece, for fragment sizes over [H+1, 65535] and encodings up to ~135 KB; receiving: generated arrival sequences judged event by event against a reference reassembler",
+    "level_note": "fragment sizes that leave no payload byte are outside the statement (C13 covers that they do not crash); where the specification is silent (whole message between fragments, unparsable fragment) the next fragment is a restart so that keep and forget agree",
+    "rule": ("send: v2/v3, size classes (H+1..H+9, powers of two +-1, 65534/65535, uniform), text lengths 0..100000 (classes incl. 48000..52000 where the encoding crosses 65535), filler of 5 kinds, 0-2 rotations before; cases needing >65535 pieces discarded (counted). "
+             "Sweep: sizes H+1..H+64 x lengths straddling the 256-byte padding boundary (every residue of encoding length modulo payload). "
+             "Receive: pieces of plaintext payloads (handed back as plaintext on completion, so processing is observable) and of genuine data messages of an authenticated reference peer; events next/restart/wrong total/duplicate/skip/index 0/k>n/foreign instance/unparsable/whole plaintext/whole data message; both header syntaxes. "
+             "Oracle: Receive returns a plaintext exactly when the model completes and it equals the model's buffer (a data message completed twice is refused as a replay). Non-trivial: send >=3 pieces; receive: a fragment event after a completion or an out-of-order event mid-stream."),
+    "assumptions": COMMON_ASSUME + ["parties hold a long-term key (a key-less conversation cannot commit to the fragment's version)"],
+    "exhaustive_checks": ["C14sizes"],
+    "tests": [
+        {"name": "TestProp_C14_Send", "quick": {"shards": 8, "checks": 40, "timeout": 500}, "thorough": {"shards": 16, "checks": 700, "timeout": 3000}},
+        {"name": "TestProp_C14_Sizes", "kind": "plain", "quick": {"shards": 4, "timeout": 500}, "thorough": {"shards": 8, "timeout": 3000}},
+        {"name": "TestProp_C14_Recv", "quick": {"shards": 4, "checks": 250, "timeout": 500}, "thorough": {"shards": 8, "checks": 6000, "timeout": 3000}},
+    ],
+}
